@@ -122,16 +122,20 @@ Lemma run_search_state f c t q : fst (run_search lm f c t q) = c /\ True.
 Proof.
   split; auto. unfold run_search. destruct (q_index q) as [n|].
   - destruct (negb (mem n (t_indexes t)) && negb match n with [] => true | _ => false end); cbn; auto.
+    destruct (check_expressions _ _ _) as [u| | |]; cbn; auto.
     destruct (search_data _ _ _ _) as [[[items lek] fi]| | |]; cbn; auto.
-  - destruct (search_data _ _ _ _) as [[[items lek] fi]| | |]; cbn; auto.
+  - destruct (check_expressions _ _ _) as [u| | |]; cbn; auto.
+    destruct (search_data _ _ _ _) as [[[items lek] fi]| | |]; cbn; auto.
 Qed.
 
 Lemma run_search_res c t q : o_res (snd (run_search lm V1 c t q)) = o_res (snd (run_search lm V2 c t q)).
 Proof.
   unfold run_search. destruct (q_index q) as [n|].
   - destruct (negb (mem n (t_indexes t)) && negb match n with [] => true | _ => false end); cbn; auto.
+    destruct (check_expressions _ _ _) as [u| | |]; cbn; auto.
     destruct (search_data _ _ _ _) as [[[items lek] fi]| | |]; cbn; auto.
-  - destruct (search_data _ _ _ _) as [[[items lek] fi]| | |]; cbn; auto.
+  - destruct (check_expressions _ _ _) as [u| | |]; cbn; auto.
+    destruct (search_data _ _ _ _) as [[[items lek] fi]| | |]; cbn; auto.
 Qed.
 
 (* same state transition and same result class through both clients, for every request that passes the v1
